@@ -86,7 +86,7 @@ def r1_single_stdout_writer(ctx, rule, entry_rel=ENTRY):
                 path = ' -> '.join(cg.path_to(par, qual))
                 ctx.bad(rule, qual, 'stdout write: ' + U(c)[:90],
                         'reachable from the guesser (%s): %s; anything on stdout besides guesses is consumed by the '
-                        'downstream cracker as a password candidate' % (path, w), {'call_path': cg.path_to(par, qual)}, c)
+                        'downstream cracker as a password candidate' % (path, w), {'call_path': cg.path_to(par, qual)}, c, firm=True)
     ctx.stats['call_sites'] += nsites
     if ctx.floor(rule, entry_rel, len(par), 40, 'reachable functions from the guesser entry') and not bad:
         ctx.ok(rule, q, 'the only stdout write reachable from %s (%d functions, %d call sites, incl. the keyboard '
